@@ -27,4 +27,11 @@ def run(run_, tier):
     from . import generic_systems
     generic_systems.run_generic_systems(run_, keep=lambda oid: any(t in oid for t in ("h2_flow", "h2-conserved", "dh2_flow_dmom", "metric-inverse")))
     # the kick uses dh1_dpos and the drift dh2_dmom: that these are the gradients of the components is C05's obligation, imported here
-    symla_systems.run_cases(run_, "c05_cases", keep=lambda oid: any(k in oid for k in ("dh1_dpos-is-gradient-of-h1", "dh2_dmom-is-gradient-of-h2", "dh2_dpos-is-gradient-of-h2")))
+    symla_systems.run_cases(run_, "c05_cases", keep=lambda oid: any(k in oid for k in ("dh1_dpos-is-gradient-of-h1", "dh2_dmom-is-gradient-of-h2", "dh2_dpos-is-gradient-of-h2",
+                                                                                          "stable-under-repeated-evaluation", "grad-cache-not-corrupted")))
+    # "conserves the component energy": h1 / h2 as REPORTED by the system after a flow, i.e. through the state cache -- a memoised value must declare every variable
+    # it reads (C09's static read-set layer), and the cache protocol itself must be transparent (C09 layer 1)
+    from . import c09, premises
+    from .trans_model import FilterRun
+    c09.static_layers(FilterRun(run_, lambda oid: "reads-within-declared-dependencies" in oid), "C09")
+    premises.cache_protocol(run_)
